@@ -23,6 +23,20 @@ CLAIMS = {
         design_ref="5/C02",
         note=TRUST + "; table types LALR/LALR_PAGER; partial-parse conservativity is decided by oracle+correspondence only (no theorem yet)",
         technique="Lean 4 proof over executable model + verified table certificate + differential correspondence"),
+    "C13": dict(
+        category="proof",
+        text=("Theorems C13_position_after_append, C13_position_spec (position_after = 1 + newlines before / bytes since line start, "
+              "for every input and offset) and C13_lr_spans: for the default string lexer with arbitrary in-range recognizers, "
+              "whitespace skipping or Layout rule, partial parsing on/off and every input, every node of the tree returned by the "
+              "Lean model of LRParser::parse satisfies Tree.SpanOk (token value = input slice at its span, both ends = computed "
+              "positions; nonterminal span = first child start .. last child end; empty nonterminal zero-width), given the executable "
+              "certificate Cert.noShiftStop on the real table. PARTIAL: ordering of token spans / betweenness of empty nodes and the "
+              "whole GLR half are decided by oracle + correspondence only (known finding F20 for ambiguous GLR forests). Tie A: model "
+              "vs real LRParser on every node (span, line/col, value slice, layout), multi-line / CRLF / multi-byte inputs; oracle "
+              "recomputes everything from the raw bytes for LR and for every tree of GLR forests."),
+        design_ref="5/C13",
+        note=TRUST + "; the generated recognizers' `Some(s)` literal (F8) is only visible to compiled generated parsers (see C08/C10 harness)",
+        technique="Lean 4 invariant proof over executable byte-level model + differential correspondence + byte-level span oracle"),
     "C18": dict(
         category="proof",
         text=("Theorems C18_existing_preserved / C18_appends_exactly_missing / C18_appended_fresh / C18_no_duplicates / "
